@@ -5,7 +5,12 @@ A program is a tree (JSON-able dicts):
   {'op':'mark', 'n':5, 'kind':'plain'|'bar'|'bv', 'ref':ARG?, 'vvar':str?, 'k':NODE}
   {'op':'barrier', 'k':NODE}
   {'op':'bvalue', 'var':'v4', 'arg':ARG, 'plain_value':bool, 'branches':{'0':NODE,'1':NODE,'2':NODE} | {'*':NODE}}
-  {'op':'compound', 'var':'c5', 'name':'comp5', 'params':[var,...], 'body':NODE, 'k':NODE}
+  {'op':'compound', 'var':'c5', 'name':'comp5', 'params':[var,...], 'body':NODE, 'k':NODE,
+   'formals':[names]?  (parameter names of the builder; default = params: a builder can be called several times, with
+                        other tasks, the same tasks in another order),
+   'kwf':{'k':0,...}?  (keyword parameters of the builder with their defaults), 'kw':{'k':1.0}? (the ones passed in this
+                        call; any of 0 1 2 0.0 1.0 2.0 False True - the builder uses int(k); 'body' is the builder's body
+                        with the values of this call written into its {'v':'k','val':..} arguments)}
   {'op':'ret', 'arg':ARG}
   ARG = {'c':int} | {'t':var} | {'tup':[ARG,ARG]} | {'v':var,'val':int}
 It is rendered (a) to Python source using the real jug API, (b) to a Gallina term of type
@@ -82,18 +87,32 @@ def maybe_fail(name, *args):
         raise ValueError('injected failure in %s%r' % (name, args))
 
 
+ONLOAD = []       # callables run by the first statement of the jugfile (mark(999999)), i.e. at the start of every load
+FRESH = []        # [callable returning a NEW store object on the data the jugfile's store is on]: the markers then ask
+                  # that one, not the (long-lived) store object of the running command
+
+
+def _has(t):
+    if FRESH:
+        return bool(FRESH[0]().can_load(t.hash()))
+    return bool(t.can_load())
+
+
 def mark(n):
     LOG.append((n, 'plain', None))
+    if n == 999999:
+        for f in list(ONLOAD):
+            f()
 
 
 def mark_bar(n):
     # executed right after a barrier(): which of the tasks defined so far have a result NOW
-    LOG.append((n, 'bar', [bool(t.can_load()) for t in jug.task.alltasks]))
+    LOG.append((n, 'bar', [_has(t) for t in jug.task.alltasks]))
 
 
 def _loadable(x):
     if isinstance(x, jug.task.Task):
-        return bool(x.can_load())
+        return _has(x)
     if isinstance(x, (tuple, list)):
         return all(_loadable(e) for e in x)
     return True
@@ -150,9 +169,13 @@ class HarnessError(RuntimeError):
 
 # ------------------------------------------------------------------------------------ generation
 class Gen:
-    def __init__(self, rng, max_tasks=6, max_b=3, max_comp=2, branch_depth=2, compound_bias=0.0, barrier_bias=1.0):
+    KWVALS = (0, 1, 2, 0.0, 1.0, 2.0, False, True)      # int(v) is a value mod 3; 1, 1.0 and True are three different arguments
+
+    def __init__(self, rng, max_tasks=6, max_b=3, max_comp=2, branch_depth=2, compound_bias=0.0, barrier_bias=1.0, kw_bias=0.0):
         self.rng = rng
         self.n = 0
+        self.kw_bias = kw_bias           # > 0: builders with keyword parameters, builders called more than once
+        self.builders = []
         self.max_tasks = max_tasks
         self.max_b = max_b
         self.max_comp = max_comp
@@ -267,19 +290,73 @@ class Gen:
                                        'k': self.block(env, st, in_body)}}}
         if op == 'compound':
             st['comp'] += 1
+            var = self.fresh('c')
             vis = [(v, ty, x) for (v, ty, x) in env if ty in ('int', 'pair')]
+            if self.kw_bias and self.builders and rng.random() < 0.55:
+                # another call of a builder defined earlier: other tasks, the same tasks in another order, other keyword
+                # arguments (or the same ones written as another type), or exactly the same call again
+                fit = [b for b in self.builders if all(any(ty == fty for (_, ty, _) in vis) for fty in b['ftypes'])
+                       and st['tasks'] + b['ntasks'] + 1 <= self.max_tasks + 2]
+                if fit:
+                    b = rng.choice(fit)
+                    last = b['calls'][-1]
+                    r = rng.random()
+                    if r < 0.45 or not b['formals']:
+                        actuals = list(last[0])
+                        if not all(any(v == a for (v, _, _) in vis) for a in actuals):
+                            actuals = None
+                    elif r < 0.7 and len(b['formals']) == 2 and b['ftypes'][0] == b['ftypes'][1]:
+                        actuals = list(reversed(last[0]))
+                        if not all(any(v == a for (v, _, _) in vis) for a in actuals):
+                            actuals = None
+                    else:
+                        actuals = None
+                    if actuals is None:
+                        actuals = [rng.choice([v for (v, ty, _) in vis if ty == fty]) for fty in b['ftypes']]
+                    kw = dict(last[1])
+                    if b['kwf'] and rng.random() < 0.8:
+                        k = rng.choice(sorted(b['kwf']))
+                        r = rng.random()
+                        if r < 0.25 and k in kw:
+                            del kw[k]                                   # falls back to the default
+                        elif r < 0.55:
+                            same = [v for v in self.KWVALS if int(v) == int(kw.get(k, b['kwf'][k])) and type(v) is not type(kw.get(k))]
+                            kw[k] = rng.choice(same)                    # the same number, another type
+                        else:
+                            kw[k] = rng.choice(self.KWVALS)
+                    vals = dict((k, int(kw.get(k, d))) for k, d in b['kwf'].items())
+                    b['calls'].append((list(actuals), dict(kw)))
+                    st['tasks'] += b['ntasks'] + 1
+                    st['b'] += b['nb']
+                    return {'op': 'compound', 'var': var, 'name': b['name'], 'params': actuals, 'formals': list(b['formals']),
+                            'kwf': dict(b['kwf']), 'kw': kw, 'body': subst_known(b['body'], vals) if vals else b['body'],
+                            'k': self.block(env + [(var, b['rty'], None)], st, in_body)}
             rng.shuffle(vis)
             params = sorted(vis[:rng.choice([0, 1, 1, 2, 2])], key=lambda e: e[0])
             name = self.fresh('comp')
-            var = self.fresh('c')
+            kwf, kw = {}, {}
+            if self.kw_bias and rng.random() < self.kw_bias:
+                for k in (['k'] if rng.random() < 0.6 else ['k', 'w']):
+                    kwf[k] = rng.randrange(M)
+                    if rng.random() < 0.6:
+                        kw[k] = rng.choice(self.KWVALS)
+            known = [(k, 'known', int(kw.get(k, d))) for k, d in sorted(kwf.items())]
             bst = {'tasks': st['tasks'], 'b': st['b'], 'comp': st['comp'], 'bdepth': max(st['bdepth'], self.branch_depth - 1), 'len': 1}
-            body = self.body(list(params), bst)
+            body = self.body(list(params) + known, bst)
             rty = self.ret_type(body, dict((v, ty) for (v, ty, _) in params))
             ntasks = self.count_path_tasks(body)
+            nb = self.count_path_b(body)
             st['tasks'] += ntasks + 1
-            st['b'] += self.count_path_b(body)
-            return {'op': 'compound', 'var': var, 'name': name, 'params': [v for (v, _, _) in params], 'body': body,
-                    'k': self.block(env + [(var, rty, None)], st, in_body)}
+            st['b'] += nb
+            node = {'op': 'compound', 'var': var, 'name': name, 'params': [v for (v, _, _) in params], 'body': body}
+            if kwf:
+                node['kwf'], node['kw'] = kwf, kw
+            if self.kw_bias and rty != 'mixed':
+                self.builders.append({'name': name, 'formals': [v for (v, _, _) in params], 'ftypes': [ty for (_, ty, _) in params],
+                                      'kwf': kwf, 'body': body, 'rty': rty, 'ntasks': ntasks, 'nb': nb,
+                                      'calls': [([v for (v, _, _) in params], dict(kw))]})
+            node['k'] = self.block(env + [(var, rty, None)], st, in_body)
+            return node
         raise AssertionError(op)
 
     def fresh_mark(self):
@@ -329,7 +406,7 @@ class Gen:
             elif op == 'def':
                 walk(n['k'], dict(types, **{n['var']: FN_SIG[n['fn']][1]}))
             elif op == 'compound':
-                walk(n['k'], dict(types, **{n['var']: self.ret_type(n['body'], dict((p, types[p]) for p in n['params']))}))
+                walk(n['k'], dict(types, **{n['var']: self.ret_type(n['body'], body_env(n, types))}))
             elif op == 'bvalue':
                 for b in n['branches'].values():
                     walk(b, types)
@@ -380,7 +457,7 @@ def has_mixed(node, types=None):
     if op == 'def':
         return has_mixed(node['k'], dict(types, **{node['var']: FN_SIG[node['fn']][1]}))
     if op == 'compound':
-        bt = dict((p, types[p]) for p in node['params'])
+        bt = body_env(node, types)
         rty = g.ret_type(node['body'], bt)
         return rty == 'mixed' or has_mixed(node['body'], bt) or has_mixed(node['k'], dict(types, **{node['var']: rty}))
     if op == 'bvalue':
@@ -687,8 +764,9 @@ def py_arg(a):
     return '(%s, %s)' % (py_arg(a['tup'][0]), py_arg(a['tup'][1]))
 
 
-def render_python(prog):
+def render_python(prog, header=''):
     funcs = []
+    defined = set()
 
     def block(node, ind, out):
         pad = '    ' * ind
@@ -724,12 +802,18 @@ def render_python(prog):
                     out['lines'].append('%s%s %s == %s:' % (pad, 'if' if i == 0 else 'elif', node['var'], x))
                     block(br[x], ind + 1, out)
         elif op == 'compound':
-            fo = {'lines': [], 'in_body': True}
-            fo['lines'].append('@CompoundTaskGenerator')
-            fo['lines'].append('def %s(%s):' % (node['name'], ', '.join(node['params'])))
-            block(node['body'], 1, fo)
-            funcs.append('\n'.join(fo['lines']))
-            out['lines'].append('%s%s = %s(%s)' % (pad, node['var'], node['name'], ', '.join(node['params'])))
+            if node['name'] not in defined:
+                defined.add(node['name'])
+                kwf = node.get('kwf') or {}
+                fo = {'lines': [], 'in_body': True}
+                fo['lines'].append('@CompoundTaskGenerator')
+                fo['lines'].append('def %s(%s):' % (node['name'], ', '.join(list(formals_of(node)) + ['%s=%d' % kv for kv in sorted(kwf.items())])))
+                for k in sorted(kwf):
+                    fo['lines'].append('    %s = int(%s)' % (k, k))
+                block(node['body'], 1, fo)
+                funcs.append('\n'.join(fo['lines']))
+            out['lines'].append('%s%s = %s(%s)' % (pad, node['var'], node['name'], ', '.join(
+                list(node['params']) + ['%s=%r' % kv for kv in sorted((node.get('kw') or {}).items())])))
             block(node['k'], ind, out)
         else:
             raise AssertionError(op)
@@ -737,7 +821,7 @@ def render_python(prog):
     main = {'lines': [], 'in_body': False}
     main['lines'].append('mark(%d)' % TOPMARK)
     block(prog, 0, main)
-    return PRELUDE + '\n\n'.join(funcs) + '\n\n' + '\n'.join(main['lines']) + '\n'
+    return PRELUDE + header + '\n\n'.join(funcs) + '\n\n' + '\n'.join(main['lines']) + '\n'
 
 
 # ------------------------------------------------------------------------------------ descriptors and real hashes
@@ -755,7 +839,7 @@ class Desc(tuple):
         return self.uid
 
     def __repr__(self):
-        return '%s#%d(%s)' % (self[1], self.uid, ', '.join(_short(a) for a in self[2]))
+        return '%s#%d(%s)' % (self[1], self.uid, ', '.join([_short(a) for a in self[2]] + ['%s=%r' % (k, a[1]) for k, a in self.kw]))
 
 
 def _short(a):
@@ -771,18 +855,20 @@ def _akey(a):
         return ('D', a.uid)
     if a[0] == 'tup':
         return ('tup', _akey(a[1]), _akey(a[2]))
-    return a
+    return (a[0], type(a[1]).__name__, a[1])          # 1, 1.0 and True are equal in Python but not for jug's hash
 
 
 _DESCS = {}
 
 
-def mkdesc(fn, args):
-    key = (fn, tuple(_akey(a) for a in args))
+def mkdesc(fn, args, kw=()):
+    """kw: ((name, ('c', value)), ...) keyword arguments (compounds only)"""
+    key = (fn, tuple(_akey(a) for a in args), tuple((k, _akey(a)) for k, a in kw))
     d = _DESCS.get(key)
     if d is None:
         d = Desc(('T', fn, tuple(args)))
         d.uid = len(_DESCS) + 1
+        d.kw = tuple(kw)
         _DESCS[key] = d
     return d
 
@@ -800,6 +886,50 @@ def desc_deps(d):
     for a in d[2]:
         walk(a)
     return out
+
+
+def formals_of(node):
+    return node.get('formals') or node['params']
+
+
+def body_env(node, env):
+    """the scope of the builder's body: its formal parameters bound to what the call passes"""
+    return dict((f, env[p]) for f, p in zip(formals_of(node), node['params']))
+
+
+def kw_desc(node):
+    return tuple(sorted((k, ('c', v)) for k, v in (node.get('kw') or {}).items()))
+
+
+def compound_desc(node, env, first=lambda x: x):
+    return mkdesc(node['name'], tuple(first(env[p]) for p in node['params']), kw_desc(node))
+
+
+def subst_known(node, vals):
+    """the body of a builder with other values for its keyword parameters: every {'v': name, 'val': _} of a name in vals"""
+    def arg(a):
+        if 'v' in a and a['v'] in vals:
+            return {'v': a['v'], 'val': vals[a['v']]}
+        if 'tup' in a:
+            return {'tup': [arg(x) for x in a['tup']]}
+        return a
+    out = []
+    for st in flatten(node):
+        st = dict(st)
+        if st['op'] == 'def':
+            st['args'] = [arg(a) for a in st['args']]
+        elif st['op'] == 'ret':
+            st['arg'] = arg(st['arg'])
+        elif st['op'] == 'mark' and 'ref' in st:
+            st['ref'] = arg(st['ref'])
+        elif st['op'] == 'bvalue':
+            st['arg'] = arg(st['arg'])
+            st['branches'] = dict((x, flatten(subst_known(unflatten(b), vals))) for x, b in st['branches'].items())
+        elif st['op'] == 'compound':
+            inner = dict((k, v) for k, v in vals.items() if k not in formals_of(st) and k not in (st.get('kwf') or {}))
+            st['body'] = flatten(subst_known(unflatten(st['body']), inner)) if inner else st['body']
+        out.append(st)
+    return unflatten(out)
 
 
 def arg_desc(a, env):
@@ -840,7 +970,7 @@ class Hasher:
         if d not in self.memo:
             n0 = len(jug.task.alltasks)
             args = [self.build(a) for a in d[2]]
-            t = jug.task.Task(self.stub(d[1]), *args)
+            t = jug.task.Task(self.stub(d[1]), *args, **dict((k, self.build(a)) for k, a in d.kw))
             h = t.hash()
             del jug.task.alltasks[n0:]
             self.memo[d] = (t, h.decode('ascii') if isinstance(h, bytes) else str(h))
@@ -864,9 +994,9 @@ def all_descs(prog):
             out.append(d)
             walk(node['k'], dict(env, **{node['var']: d}))
         elif op == 'compound':
-            d = mkdesc(node['name'], tuple(env[p] for p in node['params']))
+            d = compound_desc(node, env)
             out.append(d)
-            walk(node['body'], dict((p, env[p]) for p in node['params']))
+            walk(node['body'], body_env(node, env))
             walk(node['k'], dict(env, **{node['var']: d}))
         elif op == 'bvalue':
             for x in sorted(node['branches']):
@@ -883,7 +1013,7 @@ def all_descs(prog):
 
 
 def builder_marks(prog):
-    """{marker at the top of a builder: descriptor of the compound}, for every compound in every branch"""
+    """{marker at the top of a builder: descriptors of the compounds it builds (one per distinct call)}, all branches"""
     out = {}
 
     def walk(node, env):
@@ -894,10 +1024,12 @@ def builder_marks(prog):
             d = mkdesc(node['fn'], tuple(arg_desc(a, env) for a in node['args']))
             walk(node['k'], dict(env, **{node['var']: d}))
         elif op == 'compound':
-            d = mkdesc(node['name'], tuple(env[p] for p in node['params']))
+            d = compound_desc(node, env)
             if node['body']['op'] == 'mark':
-                out[node['body']['n']] = d
-            walk(node['body'], dict((p, env[p]) for p in node['params']))
+                out.setdefault(node['body']['n'], [])
+                if d not in out[node['body']['n']]:
+                    out[node['body']['n']].append(d)
+            walk(node['body'], body_env(node, env))
             walk(node['k'], dict(env, **{node['var']: d}))
         elif op == 'bvalue':
             for x in sorted(node['branches']):
@@ -979,9 +1111,10 @@ def render_coq(prog, it):
             alts = '; '.join('(I %s, %s)' % (x, walk(br[x], env)) for x in sorted(br))
             return '(BValue %s (fun v => sel v [%s] (Ret (K 0))))' % (coq_arg(node['arg'], env, it), alts)
         if op == 'compound':
-            d = mkdesc(node['name'], tuple(env[p] for p in node['params']))
-            cargs = '; '.join('(ATask %d)' % it.desc_id(env[p]) for p in node['params'])
-            body = walk(node['body'], dict((p, env[p]) for p in node['params']))
+            d = compound_desc(node, env)
+            cargs = '; '.join(['(ATask %d)' % it.desc_id(env[p]) for p in node['params']] +
+                              ['(K %d)' % int(v) for _, v in sorted((node.get('kw') or {}).items())])
+            body = walk(node['body'], body_env(node, env))
             return '(Compound %d [%s]\n %s\n %s)' % (it.desc_id(d), cargs, body, walk(node['k'], dict(env, **{node['var']: d})))
         raise AssertionError(op)
     return '(Mark %d %s)' % (TOPMARK, walk(prog, {}))
@@ -1029,8 +1162,8 @@ def seq_oracle(prog):
             br = node['branches']
             return walk(br['*'] if '*' in br else br[str(v)], env)
         if op == 'compound':
-            d = mkdesc(node['name'], tuple(env[p][0] for p in node['params']))
-            _, v = walk(node['body'], dict((p, env[p]) for p in node['params']))
+            d = compound_desc(node, env, first=lambda x: x[0])
+            _, v = walk(node['body'], body_env(node, env))
             log.append((d, v))
             return walk(node['k'], dict(env, **{node['var']: (d, v)}))
         raise AssertionError(op)
@@ -1052,9 +1185,9 @@ class Scratch:
         self.marks = importlib.import_module(MARKMOD)
         self.jugfile = os.path.join(root, MODNAME + '.py')
 
-    def write(self, prog):
+    def write(self, prog, header=''):
         with open(self.jugfile, 'w') as fh:
-            fh.write(render_python(prog))
+            fh.write(render_python(prog, header))
 
     def close(self):
         if self.root in sys.path:
